@@ -40,6 +40,8 @@ pub fn sweep_images() -> Vec<SeedSpec> {
     }
     v.push(SeedSpec::MuxReloc { seed: 0 });
     v.push(SeedSpec::MuxReloc { seed: 1 });
+    v.push(SeedSpec::Hybrid { seed: 0 });
+    v.push(SeedSpec::Hybrid { seed: 1 });
     v
 }
 
